@@ -35,6 +35,9 @@ def _legs(tier):
             "gen_thorough": [("ATAsyncCommit_Gen", "ATAsyncCommit_Gen_Thorough.cfg")],
             "trace": ("ATAsyncCommit_Trace", "ATAsyncCommit_Trace.cfg"),
             "shards": 12, "gen_timeout": 600, "heap": "4g",
+            # with two or more fanout workers what is lost depends on which of them gives its batch back first: a
+            # rejection is reproduced by its class showing again in a re-run of the whole leg
+            "repro_full": int(env["WORKERS"]) >= 2,
         })
     # the same scenarios under the race detector (one setting with two fanout workers): the run loop, the fanout
     # workers and the request goroutines share the queue, the retry list and the batch buffers; every distinct
